@@ -6,7 +6,7 @@ import os
 import shutil
 import tempfile
 
-CH = {'~': '~', 'a': 'a', '1': '1', 'B': '\\', 'e': 'e', 'E': '\x1b', 'q': '"', '@': '@', ':': ':', '_': '_'}
+CH = {'n': '\n', '~': '~', 'a': 'a', '1': '1', 'B': '\\', 'e': 'e', 'E': '\x1b', 'q': '"', '@': '@', ':': ':', '_': '_'}
 
 
 def conc(chars):
@@ -139,8 +139,8 @@ def replay_queue_path(case):
                 if q._told != want_told:
                     return {'ok': False, 'why': f'reader {r}: _told={q._told}, specification offset {want_told} '
                                                 f'(after {st["told"][r] // rig.rl} records)', 'step': step}
-                if sorted(rig.ids[i] for i in q._seen) != sorted(st['seen'][r]):
-                    return {'ok': False, 'why': f'reader {r}: _seen={sorted(rig.ids[i] for i in q._seen)}, specification {sorted(st["seen"][r])}',
+                if sorted(str(rig.ids.get(i, i)) for i in q._seen) != sorted(str(v) for v in st['seen'][r]):
+                    return {'ok': False, 'why': f'reader {r}: _seen={sorted(str(rig.ids.get(i, i)) for i in q._seen)}, specification {sorted(st["seen"][r])}',
                             'step': step}
             if name in ('SendBegin', 'SendChunk', 'Corrupt'):
                 with open(rig.path, 'wb') as f:
